@@ -344,6 +344,12 @@ def gen_exact_cases(rng, n):
         if len(pts) < 4:
             pts = sorted(set(pts + [F(-2), F(0), F(1), F(3), F(7)]))
             pts = [p for p in pts if regular(tree, p)]
+        if dom not in ('n', 'k'):
+            # two arbitrary float points (their exact binary value is the point): compared with a tolerance verdict
+            for _ in range(2):
+                p = F(rng.uniform(-4, 4))
+                if regular(tree, p):
+                    pts.append(p)
         mode = rng.choice(['scalar', 'scalar', 'scalar', 'list', 'array', 'tuple', 'both'])
         c = {'kind': 'expr', 'dom': dom, 'tree': tree, 'points': [fstr(p) for p in pts], 'mode': mode, 'tag': 'gen'}
         if dom in ('t', 'n') and rng.random() < 0.15:
@@ -599,7 +605,7 @@ def ex_coq(tr):
     raise ValueError(k)
 
 
-CASES_HDR = '''From Coq Require Import QArith Qcanon Bool List ZArith.
+CASES_HDR = '''From Coq Require Import QArith Qabs Qcanon Bool List ZArith.
 Require Import LT.FieldSec LT.NumEval Gen.NumFuncsGen.
 Import ListNotations.
 Definition oqeq (a b : option Qc) : bool :=
@@ -609,6 +615,13 @@ Fixpoint lqeq (a b : list Qc) : bool :=
 Definition outeq (a b : outv) : bool :=
   match a, b with
   | OScalar x, OScalar y => qc_eqb x y | OVector xs, OVector ys => lqeq xs ys | ORaise, ORaise => true | _, _ => false end.
+(* tolerance verdict on the exact value of a float: |model - float| <= 1e-9 (1 + |model|), in exact arithmetic *)
+Definition close (m o : Qc) : bool := Qle_bool (Qabs.Qabs (m - o)%Qc) ((1 # 1000000000) * (1 + Qabs.Qabs m))%Q.
+Fixpoint lqclose (a b : list Qc) : bool :=
+  match a, b with [] , [] => true | x :: r, y :: s => close x y && lqclose r s | _, _ => false end.
+Definition outclose (a b : outv) : bool :=
+  match a, b with
+  | OScalar x, OScalar y => close x y | OVector xs, OVector ys => lqclose xs ys | ORaise, ORaise => true | _, _ => false end.
 Definition nrun := run num_tab causal_guard causal_value evaluate_expr_prog.
 Definition failing (l : list (nat * bool)) : list nat := map fst (filter (fun p => negb (snd p)) l).
 '''
@@ -810,7 +823,7 @@ Fixpoint close_run (m o : list (Qc * Qc)) : bool :=
   | _, _ => false
   end.
 '''
-SIM_CASES_HDR = '''From Coq Require Import QArith Qcanon Bool List ZArith.
+SIM_CASES_HDR = '''From Coq Require Import QArith Qabs Qcanon Bool List ZArith.
 Require Import LT.FieldSec LT.NumEval LT.NumEvalSim Gen.NumSimGen.
 Import ListNotations.
 Definition sg (s : csign) (g : Qc) : Qc := match s with Plus => g | Minus => (- g)%Qc end.
@@ -1065,15 +1078,19 @@ def run(tier='quick', replay=None):
                     pts_info.append(None)
                     vec_ok = False
                     continue
-                if mv is not None and (mv.denominator > 10 ** 4 or abs(mv) > 10 ** 4):
-                    res.count('points_large_value')
-                    pts_info.append(None)
-                    vec_ok = False
-                    continue
+                # a float result is mapped back to a rational only for small values; otherwise the EXACT value of the float is
+                # compared with the model inside Coq with a relative tolerance of 1e-9 (verdict in exact arithmetic)
+                big = mv is not None and (mv.denominator > 10 ** 4 or abs(mv) > 10 ** 4)
                 disc = any(a[2] for a in apps)
                 on_pw = any(a[0] == 'pw' for a in apps)
                 so = observed(rj, 'sym')
                 no = observed(rj, 'num') if not (vec and 'vec_err' in r) else ('none',)
+                fl_ = rj.get('num_float', rj.get('num_inexact'))
+                if (big or no[0] == 'skip') and fl_ is not None and not (vec and 'vec_err' in r):
+                    fv_ = float(fl_)
+                    if fv_ == fv_ and abs(fv_) != float('inf'):
+                        no = ('approx', F(fv_))
+                        res.count('points_tolerance_verdict')
                 pts_info.append((x, so, no, disc, apps))
                 res.add_case('%s|%s|%s' % (c['dom'], json.dumps(c['tree']), c['points'][j]), True,
                              {'case': c, 'lcapy': r} if (ci % 61 == 0 and j == 0) else None)
@@ -1095,7 +1112,8 @@ def run(tier='quick', replay=None):
                     vec_ok = False
                 if not vec and no[0] != 'skip' and em is not None and not on_pw and not disc and not (zero_clause and so[0] == 'none'):
                     obs = 'ORaise' if no[0] == 'none' else '(OScalar %s)' % qcl(no[1])
-                    items.append((nid, 'num', 'outeq (nrun %s e_%d (Scalar %s) None) %s' % ('true' if cflag else 'false', ci, qcl(x), obs)))
+                    items.append((nid, 'num', '%s (nrun %s e_%d (Scalar %s) None) %s' % (
+                        'outclose' if no[0] == 'approx' else 'outeq', 'true' if cflag else 'false', ci, qcl(x), obs)))
                     meta[nid] = (ci, j, 'num')
                     nid += 1
                 if no[0] == 'skip':
@@ -1107,13 +1125,27 @@ def run(tier='quick', replay=None):
                 masked = cflag and x < 0
                 if masked:
                     res.count('points_causal_negative')
-                    if no[0] == 'val' and no[1] != 0:
+                    if no[0] in ('val', 'approx') and no[1] != 0:
                         add_cex('causal_mask:nonzero-at-negative-time', 'causal expression does not evaluate to 0 at a negative time', c, c['points'][j], lcapy=rj)
                     if not forced and so[0] == 'val' and so[1] != 0:
                         add_cex(attribute(c, x, apps, 'causal_mask:inferred-causal-but-nonzero'),
                                 'is_causal is inferred True but exact substitution at a negative time is not 0 (the mask changes the value)', c, c['points'][j], lcapy=rj)
                     continue
                 if disc or so[0] == 'skip' or no[0] == 'skip':
+                    continue
+                if no[0] == 'approx':
+                    # tolerance verdict on the exact value of the float
+                    if so[0] == 'val':
+                        d_ = abs(so[1] - no[1])
+                        sc_ = max(F(1), abs(so[1]))
+                        if d_ > sc_ / 10 ** 6:
+                            add_cex(attribute(c, x, apps, 'sym_ne_num'), 'evaluate(%s) = %s but exact substitution gives %s (not a discontinuity)' % (
+                                c['points'][j], float(no[1]), float(so[1])), c, c['points'][j], lcapy=rj, float_evidence=True)
+                        elif d_ > sc_ / 10 ** 9:
+                            res.notes.append('rounding-level difference %.2e at %s (not reported)' % (float(d_ / sc_), c['points'][j]))
+                    elif so[0] == 'none' and not zero_clause:
+                        add_cex('extrapolated:%s' % tree_hash(c['tree']), 'no clause of the Piecewise applies at %s but evaluate returns %s' % (c['points'][j], float(no[1])),
+                                c, c['points'][j], lcapy=rj)
                     continue
                 if zero_clause and so[0] == 'none' and no[0] == 'val':
                     add_cex('extrapolated:zero-clause', '%s has no clause at %s but evaluate returns %s (identically-zero clause)' % (
@@ -1134,9 +1166,9 @@ def run(tier='quick', replay=None):
                 if 'vec_err' in r:
                     obs = 'ORaise'
                 else:
-                    obs = '(OVector [%s])' % '; '.join(qcl(pi[2][1]) for pi in pts_info) if all(pi[2][0] == 'val' for pi in pts_info) else None
+                    obs = '(OVector [%s])' % '; '.join(qcl(pi[2][1]) for pi in pts_info) if all(pi[2][0] in ('val', 'approx') for pi in pts_info) else None
                 if obs is not None:
-                    items.append((nid, 'vec', 'outeq (nrun %s e_%d (Vector [%s]) None) %s' % (
+                    items.append((nid, 'vec', '%s (nrun' % ('outclose' if any(pi[2][0] == 'approx' for pi in pts_info) else 'outeq') + ' %s e_%d (Vector [%s]) None) %s' % (
                         'true' if cflag else 'false', ci, '; '.join(qcl(x) for x in xs), obs)))
                     meta[nid] = (ci, None, 'vec')
                     nid += 1
